@@ -11,7 +11,23 @@ from . import core
 from .core import Atom, Band, Budget, Intractable, PathAbort, Sym, Tracer
 
 
-def simplify_env(env, atoms_taken, domain, maxden_steps=(1, 2, 4, 8, 10, 16, 64, 100, 1000, 10**4, 10**5, 10**6, 10**7, 10**8, 10**9)):
+def simplest_between(a: Fraction, b: Fraction) -> Fraction:
+    """the rational with the smallest denominator in the closed interval [a, b]"""
+    if a > b:
+        a, b = b, a
+    if a == b:
+        return a
+    import math
+
+    fa = math.floor(a)
+    if fa + 1 <= b or a == fa:
+        return Fraction(fa if a == fa else fa + 1)
+    # same integer part: recurse on the reciprocals of the fractional parts
+    r = simplest_between(1 / (b - fa), 1 / (a - fa))
+    return fa + 1 / r
+
+
+def simplify_env(env, atoms_taken, domain, maxden_steps=(1, 2, 4, 8, 10, 16, 64, 100, 1000, 10**4, 10**5, 10**6, 10**7, 10**8), second_model=None):
     """find small-denominator rationals satisfying all atoms (exact evaluation); the
     search is coordinate-wise and falls back to the model itself"""
 
@@ -42,6 +58,19 @@ def simplify_env(env, atoms_taken, domain, maxden_steps=(1, 2, 4, 8, 10, 16, 64,
             if ok(trial):
                 cur = trial
                 break
+        if cur[i].denominator > 10**6 and second_model is not None:
+            # ask the solver for another point of the cell on either side and take the
+            # simplest rational in between (cells are convex in each coordinate up to != atoms)
+            for direction in (1, -1):
+                w = second_model(i, cur, direction)
+                if w is None:
+                    continue
+                c = simplest_between(cur[i], w)
+                trial = list(cur)
+                trial[i] = c
+                if c.denominator < cur[i].denominator and ok(trial):
+                    cur = trial
+                    break
     return cur
 
 
@@ -195,7 +224,14 @@ def explore(
             r, m = tr.check(alt, timeout_ms=tr.nl_timeout_ms if nl else None)
             if r == "sat":
                 newp = dec[:i] + [(a, not tk)]
-                e = simplify_env(tr.model_env(m), newp, dom_atoms)
+
+                def second(j, cur, direction, _alt=alt):
+                    pins = [tr.zvars[k] == core.rv_const(cur[k]) for k in range(nvars) if k != j]
+                    side = tr.zvars[j] > core.rv_const(cur[j]) if direction > 0 else tr.zvars[j] < core.rv_const(cur[j])
+                    r2, m2 = tr.check(_alt, side, *pins, timeout_ms=1000)
+                    return core.model_value(m2, tr.zvars[j]) if r2 == "sat" else None
+
+                e = simplify_env(tr.model_env(m), newp, dom_atoms, second_model=second)
                 work.append((newp, e))
             elif r == "unsat":
                 stats["infeasible_alt"] += 1
